@@ -808,7 +808,8 @@ PROPS["C07"] = dict(
     variant="plain",
     sources=ENGINE + ["engine/refsem.c", "engine/refprog.c", "props/c07_orcc.c"],
     ldflags=["-rdynamic", "-Wl,--whole-archive", "{liborc}", "-Wl,--no-whole-archive", "-ldl"],
-    set=["cg_inc=-I{repo} -I{build}", "scratch={scratch}", "orcc={build}/tools/orcc"],
+    set=["cg_inc=-I{repo} -I{build}", "scratch={scratch}", "orcc={build}/tools/orcc",
+         "testlibs={build}/orc-test/liborc-test-0.4.a {build}/orc/liborc-0.4.a"],
     excludes=NATIVE_EXCLUDES + ["const-two-lane-sizes", "ftz-threshold"],
     level="exploration",
     technique="end-to-end differential property-based testing (rapidcheck): generated .orc files go through the real orcc and gcc, the generated functions are called through their C prototypes from a generated caller and compared with emulation of API-built twins; enumerated lengths/alignments for orc_memcpy/orc_memset against memcpy/memset",
@@ -818,10 +819,11 @@ PROPS["C07"] = dict(
                 "arenas (positive and negative strides; one function in twelve with variable classes filled to the limit); orc_memcpy/"
                 "orc_memset for all lengths 0..260 x 16x16 misalignments x three modes (enumerated, complete); a generated function as the "
                 "first Orc call of a fresh process (6 cases); the .backup directive with an application-supplied fallback (4 files x 2 builds, "
-                "each run with ORC_CODE=backup and without). The generated part is sampled"),
+                "each run with ORC_CODE=backup and without); orcc --test on 16 generated files: the self-test program must compile, link with "
+                "liborc-test and pass. The generated part is sampled"),
     level_note=("trusted base: gcc 12, the caller generator (argument order as tools/orcc.c:output_prototype), orc_executor_emulate of the "
                 "API-built twin as reference (C15 relates text to API, C02 relates emulation to the documentation); known native/emulation "
-                "findings of C01/C02/C18 are kept out by construction; --test mode output is not exercised"),
+                "findings of C01/C02/C18 are kept out by construction"),
     stages=[
         dict(name="enum-memcpy-memset-first-use", mode="enum", quick=dict(), thorough=dict()),
         dict(name="rc-orcc-end-to-end", mode="rc", quick=dict(cases=5000, max_size=500, budget=55), thorough=dict(cases=150000, max_size=800, budget=1800)),
